@@ -97,7 +97,7 @@ def _find_nested(mod: ast.AST, name: str) -> ast.FunctionDef:
 def generate(lean_dir: str):
     root = P.repo_root()
     out = [P.HEADER.format(src="pdfminer/*.py (exception classes), casting.py, pdfpage.py, pdftypes.py, "
-                               "pdfdocument.py, settings.py", ns="Lenient")]
+                               "pdfdocument.py, data_structures.py, settings.py", ns="Lenient")]
     classes = {}
     for path in sorted(glob.glob(os.path.join(root, "pdfminer", "*.py"))):
         for name, bases in _classes(path):
@@ -152,6 +152,10 @@ def generate(lean_dir: str):
         ("resolveAllGuard", _has_guard(P.find_function(types, "resolve_all"), "_path")),
         ("pageTreeGuard", _has_guard(_find_nested(page, "depth_first_search"), "visited")),
         ("xrefChainGuard", _has_guard(_find_nested(doc, "read_xref_from"), "visited")),
+        # round 6: NumberTree._parse - `if kids_objid in visited: return items` (the indirect /Kids array is followed
+        # once) + visited.add + the set handed on to every recursive _parse call.  Presence only: the walk itself is not
+        # modelled (fault enumeration + corpus regressions).
+        ("numberTreeGuard", _has_guard(_find_nested(P.parse_file("pdfminer/data_structures.py"), "_parse"), "visited")),
     ]
     out.append("/-! Cycle guards found in the source (visited-set test + growth).  The model functions consult\n"
                "these flags: with a guard removed the corresponding `C13_fuel_*` theorem no longer holds. -/\n")
@@ -160,4 +164,8 @@ def generate(lean_dir: str):
     out.append("\nend PdfVerif.Gen.Lenient\n")
     path = os.path.join(lean_dir, "PdfVerif", "Gen", "Lenient.lean")
     P.write_if_changed(path, "".join(out))
-    return [path]
+    # round 6: the decoder theorems of Props/C13.lean (C13_bound_*, C13_family_stream_decode) are stated over C03's
+    # model and its regenerated tables (Gen/Filters.lean: _DECODE_ERRORS, filter names, paeth_predictor): regenerate
+    # them on every C13 run too, so that an edit of pdftypes._DECODE_ERRORS breaks those proofs here as well.
+    from . import gen_c03
+    return [path] + list(gen_c03.generate(lean_dir) or [])
